@@ -80,10 +80,11 @@ pub struct RPOp {
 fn apply(info: &AccountInfo, op: &RPOp) -> Res<()> {
     macro_rules! go {
         ($B:ty, $H:ty) => {
-            if op.borsh {
-                catch(|| realloc_and_pack_variable_len_with_repetition::<$B>(info, &<$B>::new(op.data.clone()), op.rep))
-            } else {
-                catch(|| realloc_and_pack_variable_len_with_repetition::<$H>(info, &<$H>::new(op.data.clone()), op.rep))
+            match (op.borsh, op.rep == 0 && op.data.len() % 2 == 0) {
+                (true, true) => catch(|| spl_type_length_value::state::realloc_and_pack_first_variable_len::<$B>(info, &<$B>::new(op.data.clone()))),
+                (true, false) => catch(|| realloc_and_pack_variable_len_with_repetition::<$B>(info, &<$B>::new(op.data.clone()), op.rep)),
+                (false, true) => catch(|| spl_type_length_value::state::realloc_and_pack_first_variable_len::<$H>(info, &<$H>::new(op.data.clone()))),
+                (false, false) => catch(|| realloc_and_pack_variable_len_with_repetition::<$H>(info, &<$H>::new(op.data.clone()), op.rep)),
             }
         };
     }
